@@ -1328,11 +1328,18 @@ pub fn check_c11(ix: &Ix<'_>, v: &mut Vec<Violation>) {
             let opened = g.open.as_ref().map(|o| o.0).or(g.exit.as_ref().filter(|_| g.immediate).map(|x| x.0));
             let handler_pending = opened.is_none_or(|o| o > fate_seq);
             let certainly_in_use = if holder_kind == ReqKind::Pub2 {
-                // in use until PUBCOMP: certainly so while no PUBREL for the id has been sent (a peer that
-                // sends PUBREL before it has seen PUBREC makes the end of the exchange ambiguous)
-                let rel = ix.sent.iter().find(|x| matches!(&x.pkt, Some(Pkt::PubRel(a)) if a.pid == pid) && x.seq < fate_seq).map(|x| x.seq);
+                // in use until PUBCOMP is produced, i.e. until the protocol handler of this exchange's
+                // PUBREL has completed (a PUBREL is only accepted after the publish handler finished)
                 let neg = matches!(g.exit, Some((_, Outcome::Neg(_) | Outcome::Err)));
-                !neg && rel.is_none()
+                let handler_done = g.exit.as_ref().map(|x| x.0);
+                let rel_done = ix.gates.iter().any(|r| {
+                    r.conn == conn
+                        && r.kind == GateKind::Proto
+                        && matches!(&r.desc, GateDesc::Proto { brief, .. } if *brief == format!("PUBREL #{pid}"))
+                        && handler_done.is_some_and(|h| r.enter >= h && r.id > g.id)
+                        && r.exit.as_ref().is_some_and(|x| x.0 <= fate_seq)
+                });
+                !neg && !rel_done
             } else {
                 handler_pending
             };
